@@ -5,7 +5,6 @@ import (
 	"go/constant"
 	"go/token"
 	"go/types"
-	"strings"
 
 	"golang.org/x/tools/go/ssa"
 )
@@ -39,15 +38,27 @@ type abortPath struct{ why string }
 
 type Interp struct {
 	prog    *ssa.Program
+	tb      *TB
 	ex      *Explorer
 	globals map[*ssa.Global]*Cont
 	addrOf  map[Ptr]uint64
 	ptrAt   map[uint64]Ptr
 	nextAdr uint64
 	steps   int
-	funcs   map[string]bool
-	pkg     *ssa.Package
-	nvar    int
+	budget  int
+	funcs   map[string]string
+	targets map[*ssa.Package]bool
+	errType types.Type
+	depth   int
+	pool    map[*Cont][]Value // sync.Pool contents keyed by the pool object
+	inited  map[*ssa.Package]bool
+	tier    int
+}
+
+func NewInterp(prog *ssa.Program, tb *TB, ex *Explorer, targets map[*ssa.Package]bool, funcs map[string]string, budget int) *Interp {
+	return &Interp{prog: prog, tb: tb, ex: ex, globals: map[*ssa.Global]*Cont{}, addrOf: map[Ptr]uint64{}, ptrAt: map[uint64]Ptr{},
+		nextAdr: 0xc000000000, funcs: funcs, targets: targets, errType: types.Universe.Lookup("error").Type(), budget: budget,
+		pool: map[*Cont][]Value{}, inited: map[*ssa.Package]bool{}}
 }
 
 func copyVal(v Value) Value {
@@ -98,10 +109,10 @@ func (in *Interp) zero(t types.Type) Value {
 	case *types.Basic:
 		switch {
 		case u.Info()&types.IsBoolean != 0:
-			return Bool(false)
+			return in.tb.Bool(false)
 		case u.Info()&types.IsInteger != 0:
 			w, _ := widthOf(t)
-			return Const(w, 0)
+			return in.tb.Const(w, 0)
 		case u.Info()&types.IsString != 0:
 			return Str("")
 		case u.Kind() == types.UnsafePointer:
@@ -159,14 +170,14 @@ func (in *Interp) constVal(c *ssa.Const) Value {
 	case *types.Basic:
 		switch {
 		case u.Info()&types.IsBoolean != 0:
-			return Bool(constant.BoolVal(c.Value))
+			return in.tb.Bool(constant.BoolVal(c.Value))
 		case u.Info()&types.IsInteger != 0:
 			w, _ := widthOf(t)
 			if v, ok := constant.Int64Val(constant.ToInt(c.Value)); ok {
-				return Const(w, uint64(v))
+				return in.tb.Const(w, uint64(v))
 			}
 			v, _ := constant.Uint64Val(constant.ToInt(c.Value))
-			return Const(w, v)
+			return in.tb.Const(w, v)
 		case u.Info()&types.IsString != 0:
 			return Str(constant.StringVal(c.Value))
 		case u.Info()&types.IsFloat != 0:
@@ -224,6 +235,19 @@ func (in *Interp) concInt(t *Term) int {
 	return int(sext(t.val, t.w))
 }
 
+func (in *Interp) noteFunc(fn *ssa.Function) {
+	name := fn.String()
+	if _, ok := in.funcs[name]; !ok {
+		file := ""
+		if fn.Pkg != nil && in.targets[fn.Pkg] && fn.Pos().IsValid() {
+			file = in.prog.Fset.Position(fn.Pos()).Filename
+		} else if p := fn.Parent(); p != nil && p.Pkg != nil && in.targets[p.Pkg] && fn.Pos().IsValid() {
+			file = in.prog.Fset.Position(fn.Pos()).Filename
+		}
+		in.funcs[name] = file
+	}
+}
+
 func (in *Interp) call(fn *ssa.Function, args []Value) (ret Value) {
 	name := fn.String()
 	if r, ok := in.intercept(fn, name, args); ok {
@@ -232,25 +256,57 @@ func (in *Interp) call(fn *ssa.Function, args []Value) (ret Value) {
 	if fn.Blocks == nil {
 		panic(abortPath{"no body: " + name})
 	}
-	in.funcs[name] = true
-	fr := &frame{fn: fn, env: map[ssa.Value]Value{}}
+	in.noteFunc(fn)
+	fr := &frame{fn: fn, env: make(map[ssa.Value]Value, 16)}
 	for i, p := range fn.Params {
 		fr.env[p] = args[i]
 	}
+	in.depth++
+	if in.depth > 400 {
+		panic(abortPath{"step budget"})
+	}
+	defer func() { in.depth-- }()
 	return in.run(fr, nil)
 }
 
 func (in *Interp) callClosure(c *Closure, args []Value) Value {
 	fn := c.fn
-	in.funcs[fn.String()] = true
-	fr := &frame{fn: fn, env: map[ssa.Value]Value{}}
+	in.noteFunc(fn)
+	fr := &frame{fn: fn, env: make(map[ssa.Value]Value, 16)}
 	for i, p := range fn.Params {
 		fr.env[p] = args[i]
 	}
 	for i, fv := range fn.FreeVars {
 		fr.env[fv] = c.env[i]
 	}
+	in.depth++
+	if in.depth > 400 {
+		panic(abortPath{"step budget"})
+	}
+	defer func() { in.depth-- }()
 	return in.run(fr, nil)
+}
+
+// initPackages runs the package initialisers of the code under test (imports first).
+func (in *Interp) initPackages(p *ssa.Package) {
+	if p == nil || in.inited[p] {
+		return
+	}
+	in.inited[p] = true
+	for _, imp := range p.Pkg.Imports() {
+		if ip := in.prog.Package(imp); ip != nil && in.targets[ip] {
+			in.initPackages(ip)
+		}
+	}
+	if f := p.Func("init"); f != nil && f.Blocks != nil {
+		in.callInit(f)
+	}
+}
+
+func (in *Interp) callInit(f *ssa.Function) {
+	in.noteFunc(f)
+	fr := &frame{fn: f, env: map[ssa.Value]Value{}}
+	in.run(fr, nil)
 }
 
 func (in *Interp) callValue(f Value, args []Value) Value {
@@ -286,7 +342,7 @@ func (in *Interp) run(fr *frame, _ interface{}) (ret Value) {
 		var next *ssa.BasicBlock
 		for _, ins := range b.Instrs {
 			in.steps++
-			if in.steps > 5_000_000 {
+			if in.steps > in.budget {
 				panic(abortPath{"step budget"})
 			}
 			switch x := ins.(type) {
@@ -361,7 +417,7 @@ func (in *Interp) eqConcrete(a, b Value) bool {
 		if x.IsConst() && y.IsConst() {
 			return x.val == y.val
 		}
-		return in.ex.branch(Cmp("=", x, y))
+		return in.ex.branch(in.tb.Cmp("=", x, y))
 	case Ptr:
 		return x == b.(Ptr)
 	case Str:
@@ -408,7 +464,13 @@ func (in *Interp) invoke(fv Value, recv Value, args []Value, c *ssa.CallCommon) 
 	if c.IsInvoke() {
 		ifc := recv.(Iface)
 		if ifc.t == nil {
-			in.goPanicStr("nil interface method call")
+			in.goPanicStr("nil pointer dereference (method call on nil interface)")
+		}
+		if ifc.t == in.errType { // opaque error value made by a stubbed constructor
+			if c.Method.Name() == "Error" {
+				return ifc.v
+			}
+			panic(abortPath{"unsupported method on opaque error: " + c.Method.Name()})
 		}
 		ms := in.prog.MethodSets.MethodSet(ifc.t)
 		sel := ms.Lookup(c.Method.Pkg(), c.Method.Name())
@@ -416,11 +478,17 @@ func (in *Interp) invoke(fv Value, recv Value, args []Value, c *ssa.CallCommon) 
 			panic("method not found " + c.Method.Name() + " on " + ifc.t.String())
 		}
 		fn := in.prog.MethodValue(sel)
+		if fn == nil {
+			panic(abortPath{"unsupported: abstract method " + c.Method.Name() + " on " + ifc.t.String()})
+		}
 		return in.call(fn, append([]Value{ifc.v}, args...))
 	}
 	switch f := fv.(type) {
 	case *ssa.Builtin:
 		return in.builtin(f, args, c)
+	case nil:
+		in.goPanicStr("nil pointer dereference (call of nil func)")
+		return nil
 	default:
 		return in.callValue(fv, args)
 	}
@@ -431,19 +499,19 @@ func (in *Interp) builtin(b *ssa.Builtin, args []Value, c *ssa.CallCommon) Value
 	case "len":
 		switch x := args[0].(type) {
 		case Slice:
-			return Const(64, uint64(x.len))
+			return in.tb.Const(64, uint64(x.len))
 		case Str:
-			return Const(64, uint64(len(x)))
+			return in.tb.Const(64, uint64(len(x)))
 		case *Cont:
-			return Const(64, uint64(len(x.slots)))
+			return in.tb.Const(64, uint64(len(x.slots)))
 		case *MapObj:
 			if x == nil {
-				return Const(64, 0)
+				return in.tb.Const(64, 0)
 			}
-			return Const(64, uint64(len(x.keys)))
+			return in.tb.Const(64, uint64(len(x.keys)))
 		}
 	case "cap":
-		return Const(64, uint64(args[0].(Slice).cap))
+		return in.tb.Const(64, uint64(args[0].(Slice).cap))
 	case "append":
 		s := args[0].(Slice)
 		t := args[1].(Slice)
@@ -492,11 +560,11 @@ func (in *Interp) eval(fr *frame, v ssa.Value) Value {
 		case token.MUL:
 			return in.load(a.(Ptr))
 		case token.NOT:
-			return Not(a.(*Term))
+			return in.tb.Not(a.(*Term))
 		case token.SUB:
-			return BvNeg(a.(*Term))
+			return in.tb.BvNeg(a.(*Term))
 		case token.XOR:
-			return BvNot(a.(*Term))
+			return in.tb.BvNot(a.(*Term))
 		}
 		panic("unop " + x.Op.String())
 	case *ssa.Call:
@@ -525,7 +593,7 @@ func (in *Interp) eval(fr *frame, v ssa.Value) Value {
 		base := in.get(fr, x.X)
 		idx := in.get(fr, x.Index).(*Term)
 		_, signed := widthOf(x.Index.Type())
-		idx = Resize(idx, 64, signed)
+		idx = in.tb.Resize(idx, 64, signed)
 		switch bb := base.(type) {
 		case Slice:
 			i := in.boundedIndex(idx, bb.len)
@@ -541,7 +609,7 @@ func (in *Interp) eval(fr *frame, v ssa.Value) Value {
 		panic("indexaddr")
 	case *ssa.Index:
 		base := in.get(fr, x.X)
-		idx := Resize(in.get(fr, x.Index).(*Term), 64, true)
+		idx := in.tb.Resize(in.get(fr, x.Index).(*Term), 64, true)
 		switch bb := base.(type) {
 		case *Cont:
 			i := in.boundedIndex(idx, len(bb.slots))
@@ -615,7 +683,7 @@ func (in *Interp) eval(fr *frame, v ssa.Value) Value {
 			res = in.zero(x.AssertedType)
 		}
 		if x.CommaOk {
-			return Tuple{res, Bool(ok)}
+			return Tuple{res, in.tb.Bool(ok)}
 		}
 		if !ok {
 			in.goPanicStr("interface conversion failed")
@@ -637,7 +705,7 @@ func (in *Interp) eval(fr *frame, v ssa.Value) Value {
 				}
 			}
 			if x.CommaOk {
-				return Tuple{res, Bool(found)}
+				return Tuple{res, in.tb.Bool(found)}
 			}
 			return res
 		}
@@ -655,7 +723,7 @@ func (in *Interp) boundedIndex(idx *Term, n int) int {
 		}
 		return i
 	}
-	inb := And(Cmp("bvsle", Const(64, 0), idx), Cmp("bvslt", idx, Const(64, uint64(n))))
+	inb := in.tb.And(in.tb.Cmp("bvsle", in.tb.Const(64, 0), idx), in.tb.Cmp("bvslt", idx, in.tb.Const(64, uint64(n))))
 	if !in.ex.branch(inb) {
 		in.goPanicStr(fmt.Sprintf("index out of range [symbolic] with length %d", n))
 	}
@@ -668,7 +736,7 @@ func (in *Interp) convert(v Value, from, to types.Type) Value {
 	if fok && tok && fb.Info()&types.IsInteger != 0 && tb.Info()&types.IsInteger != 0 {
 		_, fs := widthOf(from)
 		tw, _ := widthOf(to)
-		return Resize(v.(*Term), tw, fs)
+		return in.tb.Resize(v.(*Term), tw, fs)
 	}
 	// pointer <-> unsafe.Pointer
 	if _, ok := from.Underlying().(*types.Pointer); ok && tok && tb.Kind() == types.UnsafePointer {
@@ -680,7 +748,7 @@ func (in *Interp) convert(v Value, from, to types.Type) Value {
 	if fok && fb.Kind() == types.UnsafePointer && tok && tb.Kind() == types.Uintptr {
 		p := v.(Ptr)
 		if p.c == nil {
-			return Const(64, 0)
+			return in.tb.Const(64, 0)
 		}
 		a, ok := in.addrOf[p]
 		if !ok {
@@ -689,7 +757,7 @@ func (in *Interp) convert(v Value, from, to types.Type) Value {
 			in.addrOf[p] = a
 			in.ptrAt[a] = p
 		}
-		return Const(64, a)
+		return in.tb.Const(64, a)
 	}
 	if fok && fb.Kind() == types.Uintptr && tok && tb.Kind() == types.UnsafePointer {
 		t := v.(*Term)
@@ -716,96 +784,96 @@ func (in *Interp) binop(op token.Token, a, b Value, ta, tb types.Type) Value {
 		if x.w == 0 { // bool
 			switch op {
 			case token.EQL:
-				return Or(And(x, y), And(Not(x), Not(y)))
+				return in.tb.Or(in.tb.And(x, y), in.tb.And(in.tb.Not(x), in.tb.Not(y)))
 			case token.NEQ:
-				return Or(And(x, Not(y)), And(Not(x), y))
+				return in.tb.Or(in.tb.And(x, in.tb.Not(y)), in.tb.And(in.tb.Not(x), y))
 			case token.AND:
-				return And(x, y)
+				return in.tb.And(x, y)
 			case token.OR:
-				return Or(x, y)
+				return in.tb.Or(x, y)
 			}
 			panic("bool binop " + op.String())
 		}
 		_, signed := widthOf(ta)
 		switch op {
 		case token.ADD:
-			return BV("bvadd", x, y)
+			return in.tb.BV("bvadd", x, y)
 		case token.SUB:
-			return BV("bvsub", x, y)
+			return in.tb.BV("bvsub", x, y)
 		case token.MUL:
-			return BV("bvmul", x, y)
+			return in.tb.BV("bvmul", x, y)
 		case token.AND:
-			return BV("bvand", x, y)
+			return in.tb.BV("bvand", x, y)
 		case token.OR:
-			return BV("bvor", x, y)
+			return in.tb.BV("bvor", x, y)
 		case token.XOR:
-			return BV("bvxor", x, y)
+			return in.tb.BV("bvxor", x, y)
 		case token.AND_NOT:
-			return BV("bvand", x, BvNot(y))
+			return in.tb.BV("bvand", x, in.tb.BvNot(y))
 		case token.QUO, token.REM:
-			if in.ex.branch(Cmp("=", y, Const(y.w, 0))) {
+			if in.ex.branch(in.tb.Cmp("=", y, in.tb.Const(y.w, 0))) {
 				in.goPanicStr("integer divide by zero")
 			}
 			o := map[token.Token][2]string{token.QUO: {"bvudiv", "bvsdiv"}, token.REM: {"bvurem", "bvsrem"}}[op]
 			if signed {
-				return BV(o[1], x, y)
+				return in.tb.BV(o[1], x, y)
 			}
-			return BV(o[0], x, y)
+			return in.tb.BV(o[0], x, y)
 		case token.SHL, token.SHR:
 			_, ys := widthOf(tb)
 			if ys {
-				if in.ex.branch(Cmp("bvslt", y, Const(y.w, 0))) {
+				if in.ex.branch(in.tb.Cmp("bvslt", y, in.tb.Const(y.w, 0))) {
 					in.goPanicStr("negative shift amount")
 				}
 			}
-			yy := Resize(y, 64, false)
-			big := Not(Cmp("bvult", yy, Const(64, uint64(x.w))))
-			ysh := Resize(yy, x.w, false)
+			yy := in.tb.Resize(y, 64, false)
+			big := in.tb.Not(in.tb.Cmp("bvult", yy, in.tb.Const(64, uint64(x.w))))
+			ysh := in.tb.Resize(yy, x.w, false)
 			if x.w > 64 {
 				panic("w")
 			}
 			if y.w < x.w {
-				ysh = Resize(y, x.w, false)
+				ysh = in.tb.Resize(y, x.w, false)
 			}
 			switch {
 			case op == token.SHL:
-				return Ite(big, Const(x.w, 0), BV("bvshl", x, ysh))
+				return in.tb.Ite(big, in.tb.Const(x.w, 0), in.tb.BV("bvshl", x, ysh))
 			case signed:
-				return Ite(big, BV("bvashr", x, Const(x.w, uint64(x.w-1))), BV("bvashr", x, ysh))
+				return in.tb.Ite(big, in.tb.BV("bvashr", x, in.tb.Const(x.w, uint64(x.w-1))), in.tb.BV("bvashr", x, ysh))
 			default:
-				return Ite(big, Const(x.w, 0), BV("bvlshr", x, ysh))
+				return in.tb.Ite(big, in.tb.Const(x.w, 0), in.tb.BV("bvlshr", x, ysh))
 			}
 		case token.EQL:
-			return Cmp("=", x, y)
+			return in.tb.Cmp("=", x, y)
 		case token.NEQ:
-			return Not(Cmp("=", x, y))
+			return in.tb.Not(in.tb.Cmp("=", x, y))
 		case token.LSS:
 			if signed {
-				return Cmp("bvslt", x, y)
+				return in.tb.Cmp("bvslt", x, y)
 			}
-			return Cmp("bvult", x, y)
+			return in.tb.Cmp("bvult", x, y)
 		case token.LEQ:
 			if signed {
-				return Cmp("bvsle", x, y)
+				return in.tb.Cmp("bvsle", x, y)
 			}
-			return Cmp("bvule", x, y)
+			return in.tb.Cmp("bvule", x, y)
 		case token.GTR:
 			if signed {
-				return Cmp("bvslt", y, x)
+				return in.tb.Cmp("bvslt", y, x)
 			}
-			return Cmp("bvult", y, x)
+			return in.tb.Cmp("bvult", y, x)
 		case token.GEQ:
 			if signed {
-				return Cmp("bvsle", y, x)
+				return in.tb.Cmp("bvsle", y, x)
 			}
-			return Cmp("bvule", y, x)
+			return in.tb.Cmp("bvule", y, x)
 		}
 	case Ptr:
 		switch op {
 		case token.EQL:
-			return Bool(x == b.(Ptr))
+			return in.tb.Bool(x == b.(Ptr))
 		case token.NEQ:
-			return Bool(x != b.(Ptr))
+			return in.tb.Bool(x != b.(Ptr))
 		}
 	case Iface:
 		y := b.(Iface)
@@ -817,24 +885,24 @@ func (in *Interp) binop(op token.Token, a, b Value, ta, tb types.Type) Value {
 		}
 		switch op {
 		case token.EQL:
-			return Bool(eq)
+			return in.tb.Bool(eq)
 		case token.NEQ:
-			return Bool(!eq)
+			return in.tb.Bool(!eq)
 		}
 	case Slice:
 		// only comparison with nil
 		switch op {
 		case token.EQL:
-			return Bool(x.c == nil)
+			return in.tb.Bool(x.c == nil)
 		case token.NEQ:
-			return Bool(x.c != nil)
+			return in.tb.Bool(x.c != nil)
 		}
 	case Str:
 		switch op {
 		case token.EQL:
-			return Bool(x == b.(Str))
+			return in.tb.Bool(x == b.(Str))
 		case token.NEQ:
-			return Bool(x != b.(Str))
+			return in.tb.Bool(x != b.(Str))
 		case token.ADD:
 			return x + b.(Str)
 		}
@@ -842,90 +910,25 @@ func (in *Interp) binop(op token.Token, a, b Value, ta, tb types.Type) Value {
 		y := b.(float64)
 		switch op {
 		case token.LSS:
-			return Bool(x < y)
+			return in.tb.Bool(x < y)
 		case token.GTR:
-			return Bool(x > y)
+			return in.tb.Bool(x > y)
 		}
 	case nil:
 		switch op {
 		case token.EQL:
-			return Bool(b == nil)
+			return in.tb.Bool(b == nil)
 		case token.NEQ:
-			return Bool(b != nil)
+			return in.tb.Bool(b != nil)
 		}
 	case *Closure, *ssa.Function:
 		switch op {
 		case token.EQL:
-			return Bool(b == nil && a == nil)
+			return in.tb.Bool(b == nil && a == nil)
 		case token.NEQ:
-			return Bool(!(b == nil && a == nil))
+			return in.tb.Bool(!(b == nil && a == nil))
 		}
 	}
 	panic(fmt.Sprintf("binop %s %T", op, a))
 }
 
-var errType types.Type
-
-func (in *Interp) mkErr(msg string) Value {
-	return Iface{errType, Str(msg)}
-}
-
-func (in *Interp) intercept(fn *ssa.Function, name string, args []Value) (Value, bool) {
-	switch {
-	case name == "github.com/pkg/errors.New" || name == "github.com/pkg/errors.Errorf" || name == "errors.New" || name == "fmt.Errorf" || name == "github.com/pkg/errors.Wrapf":
-		return in.mkErr("error"), true
-	case name == "fmt.Sprintf":
-		return Str("<fmt>"), true
-	case name == "math/bits.LeadingZeros64":
-		return Resize(Clz64(args[0].(*Term)), 64, false), true
-	case name == "math/bits.TrailingZeros64":
-		return Resize(Ctz64(args[0].(*Term)), 64, false), true
-	case strings.HasPrefix(name, "(*github.com/dolthub/swiss.Map["):
-		if strings.HasSuffix(name, ".Delete") {
-			return Bool(true), true
-		}
-		return nil, true
-	case strings.HasPrefix(name, "github.com/dolthub/swiss.NewMap["):
-		return Ptr{}, true
-	case name == "(*sync.Pool).Get":
-		t := in.pkg.Type("tlsfBlock").Type()
-		c := &Cont{slots: []Value{in.zero(t)}}
-		return Iface{types.NewPointer(t), Ptr{c, 0}}, true
-	case name == "(*sync.Pool).Put":
-		return nil, true
-	}
-	if fn.Pkg == in.pkg {
-		switch fn.Name() {
-		case "verifNondetInt":
-			in.nvar++
-			v := Var(fmt.Sprintf("n%d_%s", in.nvar, string(args[0].(Str))), 64)
-			seen := false
-			for _, o := range in.ex.vars {
-				if o == v {
-					seen = true
-				}
-			}
-			if !seen {
-				in.ex.vars = append(in.ex.vars, v)
-			}
-			return v, true
-		case "verifAssume":
-			c := args[0].(*Term)
-			if !in.ex.assume(c) {
-				panic(abortPath{"assume false"})
-			}
-			return nil, true
-		case "verifAssert":
-			in.ex.assert(string(args[0].(Str)), args[1].(*Term))
-			return nil, true
-		case "verifAnd":
-			return And(args[0].(*Term), args[1].(*Term)), true
-		case "verifOr":
-			return Or(args[0].(*Term), args[1].(*Term)), true
-		case "verifReach":
-			in.ex.reach[string(args[0].(Str))]++
-			return nil, true
-		}
-	}
-	return nil, false
-}
